@@ -186,6 +186,14 @@ func (x *Exec) isThreadLocalKey(key string) bool {
 	if x.e.db.ThreadLocal[key] {
 		return true
 	}
+	for tl := range x.e.db.ThreadLocal {
+		if strings.HasSuffix(tl, ".*") && strings.HasPrefix(key, strings.TrimSuffix(tl, "*")) {
+			return true
+		}
+	}
+	if key == strings.TrimSuffix("Raft.options.", ".") && x.e.db.ThreadLocal["Raft.options.*"] {
+		return true
+	}
 	if i := strings.Index(key, "."); i > 0 {
 		if x.e.db.ThreadLocal[key[:i]] {
 			return true
